@@ -562,10 +562,12 @@ where
     let prop = c.cli.prop.as_str();
     let mut r = Rng::new(c.cli.seed ^ ((w as u64) << 29) ^ (prop.as_bytes()[2] as u64 * 733) ^ 0x17);
     let bnd = gen::boundary(n);
+    // the width sweep runs a third of the quick operand counts on each of its 132 type pairs
+    let sweep = c.cli.extra.iter().any(|x| x == "--sweep");
     let scale = |q: usize, t: usize| -> usize {
-        let b = if thorough { t } else { q };
+        let b = if thorough { t } else if sweep { (q / 3).max(3) } else { q };
         if n >= 64 {
-            (b / 3).max(6)
+            (b / 3).max(if sweep { 2 } else { 6 })
         } else {
             b
         }
@@ -576,6 +578,11 @@ where
             // small operands: products and quotients that do not overflow
             for _ in 0..scale(15, 150) {
                 ps.push((gen::fit(&gen::short(&mut r, (n / 2).max(1)), n), gen::small(n, r.below(300))));
+            }
+            if sweep {
+                // the fixed boundary part of gen::pairs is large: every fifth pair, rotating with the seed
+                let off = (c.cli.seed % 5) as usize;
+                ps = ps.into_iter().skip(off).step_by(5).collect();
             }
             for (a, b) in ps.iter() {
                 c17_generic::<T>(&mut rec, a, b);
@@ -609,7 +616,7 @@ where
             // only go wrong past 2^8 / 2^16 additions into one digit position; items are short, so that the exact
             // sum is representable, and have all-ones low bytes, so that every low column overflows
             if n >= 3 {
-                for len in [258usize, 300, if thorough { 1000 } else { 270 }] {
+                for len in if sweep { vec![258usize] } else { vec![258usize, 300, if thorough { 1000 } else { 270 }] } {
                     let k = (n / 2).max(1);
                     let items: Vec<B> = (0..len)
                         .map(|i| {
